@@ -420,6 +420,72 @@ theorem ne_of_modOK (m x : Str) (hm : ModOK m) (h1 : modHeadB x = false) (h2 : a
   · rw [h1] at h; cases h
   · rw [h2] at h; cases h
 
+/-! ## `_tag_attr_name` (F64 repaired) -/
+
+/-- The module names `_tag_attr_name` renames: the own members, and the own members without their leading underscore. -/
+def renamedModules : List Str :=
+  ownMembers ++ ownMembers.filterMap fun x => match x with | '_' :: r => some r | _ => none
+
+theorem tagAttr_of_not (m : Str) (h1 : m ∉ ownMembers) (h2 : '_' :: m ∉ ownMembers) : tagAttr m = m := by
+  unfold tagAttr
+  simp [h1, h2]
+
+/-- Either the name is kept (and neither it nor `_` + it is an own member), or it is one of `renamedModules` and gets `_`. -/
+theorem tagAttr_cases (m : Str) :
+    (tagAttr m = m ∧ m ∉ ownMembers ∧ '_' :: m ∉ ownMembers) ∨ (m ∈ renamedModules ∧ tagAttr m = m ++ ['_']) := by
+  by_cases h1 : m ∈ ownMembers
+  · right
+    refine ⟨List.mem_append.2 (.inl h1), ?_⟩
+    unfold tagAttr
+    simp [h1]
+  · by_cases h2 : '_' :: m ∈ ownMembers
+    · right
+      refine ⟨List.mem_append.2 (.inr (List.mem_filterMap.2 ⟨_, h2, rfl⟩)), ?_⟩
+      unfold tagAttr
+      simp [h2]
+    · exact .inl ⟨tagAttr_of_not m h1 h2, h1, h2⟩
+
+/-- Table-level facts about the renamed names (13 closed strings). -/
+theorem renamed_facts : ∀ x ∈ renamedModules,
+    (x ++ ['_']) ∉ ownMembers ∧ '_' :: (x ++ ['_']) ∉ ownMembers ∧ isValidPyIdentifier (x ++ ['_']) = true ∧
+      allUsB (x ++ ['_']) = false := by
+  decide
+
+/-- **The repair.**  Whatever the module name, the attribute name is no own member of the three classes, and neither is the
+    private attribute `_<attr>`. -/
+theorem tagAttr_not_own (m : Str) : tagAttr m ∉ ownMembers ∧ privAttr (tagAttr m) ∉ ownMembers := by
+  rcases tagAttr_cases m with ⟨h, h1, h2⟩ | ⟨hm, h⟩
+  · rw [h]; exact ⟨h1, h2⟩
+  · rw [h]; exact ⟨(renamed_facts m hm).1, (renamed_facts m hm).2.1⟩
+
+theorem tagAttr_valid (m : Str) (h : isValidPyIdentifier m = true) : isValidPyIdentifier (tagAttr m) = true := by
+  rcases tagAttr_cases m with ⟨h', _, _⟩ | ⟨hm, h'⟩
+  · rw [h']; exact h
+  · rw [h']; exact (renamed_facts m hm).2.2.1
+
+theorem tagAttr_of_allUs (m : Str) (h : allUsB (tagAttr m) = true) : tagAttr m = m := by
+  rcases tagAttr_cases m with ⟨h', _, _⟩ | ⟨hm, h'⟩
+  · exact h'
+  · rw [h', (renamed_facts m hm).2.2.2] at h; cases h
+
+theorem allUsB_append_us (m : Str) : allUsB (m ++ ['_']) = allUsB m := by
+  simp [allUsB]
+
+theorem tagAttr_modOK (m : Str) (hm : ModOK m) : ModOK (tagAttr m) := by
+  rcases tagAttr_cases m with ⟨h', _, _⟩ | ⟨_, h'⟩
+  · rw [h']; exact hm
+  · rw [h']
+    rcases hm with h | h
+    · exact .inl (modHeadB_append _ _ h)
+    · right; rw [allUsB_append_us]; exact h
+
+/-- Underscores apart, the attribute name is the module name. -/
+theorem noUs_tagAttr (m : Str) : noUs (tagAttr m) = noUs m := by
+  rcases tagAttr_cases m with ⟨h', _, _⟩ | ⟨_, h'⟩
+  · rw [h']
+  · rw [h', noUs_append]
+    simp [noUs]
+
 /-! ## The last step of `sanitize_module_name` -/
 
 theorem sanModule_final (u : UInfo) (t : Str) :
@@ -480,17 +546,20 @@ theorem tuple_tag (u : UInfo) (c : Str) : (mkTuple u c).tag = c := rfl
 
 /-! ## Projections of the skeletons (stated once: unfolding a skeleton under `simp` would normalise its string literals) -/
 
-theorem apiClientSkel_props (tt : List TagTuple) : (apiClientSkel tt).props = tt.map fun t => (t.module, t.cls) := rfl
+theorem apiClientSkel_props (tt : List TagTuple) :
+    (apiClientSkel tt).props = tt.map fun t => (tagAttr t.module, t.cls) := rfl
 theorem apiClientSkel_attrs (tt : List TagTuple) :
-    (apiClientSkel tt).attrs = fixedAttrs ++ tt.map fun t => privAttr t.module := rfl
+    (apiClientSkel tt).attrs = fixedAttrs ++ tt.map fun t => privAttr (tagAttr t.module) := rfl
 theorem apiClientSkel_methods (tt : List TagTuple) : (apiClientSkel tt).methods = fixedMethods := rfl
 theorem protocolSkel_props (tt : List TagTuple) :
-    (protocolSkel tt).props = tt.map fun t => (t.module, t.cls ++ kProtocolSuffix) := rfl
+    (protocolSkel tt).props = tt.map fun t => (tagAttr t.module, t.cls ++ kProtocolSuffix) := rfl
 theorem protocolSkel_methods (tt : List TagTuple) : (protocolSkel tt).methods = fixedMethods := rfl
 theorem mockClientSkel_props (tt : List TagTuple) :
-    (mockClientSkel tt).props = tt.map fun t => (t.module, t.cls ++ kProtocolSuffix) := rfl
-theorem mockClientSkel_attrs (tt : List TagTuple) : (mockClientSkel tt).attrs = tt.map fun t => privAttr t.module := rfl
-theorem mockClientSkel_initParams (tt : List TagTuple) : (mockClientSkel tt).initParams = kSelf :: tt.map (·.module) := rfl
+    (mockClientSkel tt).props = tt.map fun t => (tagAttr t.module, t.cls ++ kProtocolSuffix) := rfl
+theorem mockClientSkel_attrs (tt : List TagTuple) :
+    (mockClientSkel tt).attrs = tt.map fun t => privAttr (tagAttr t.module) := rfl
+theorem mockClientSkel_initParams (tt : List TagTuple) :
+    (mockClientSkel tt).initParams = kSelf :: tt.map fun t => tagAttr t.module := rfl
 theorem mockClientSkel_initBodyEmpty (tt : List TagTuple) : (mockClientSkel tt).initBodyEmpty = false := rfl
 theorem mockClientSkel_methods (tt : List TagTuple) : (mockClientSkel tt).methods = fixedMethods := rfl
 
